@@ -350,6 +350,7 @@ impl<'a> Interp<'a> {
     fn set_modified(&mut self, v: usize) {
         if let Some(Obj::A(a)) = self.model.get_mut(&v) {
             a.modified = true;
+            a.dirty = true;
         }
     }
     fn judge_mod(&mut self, api: &str, v: usize, hc: HClass, writable: bool, twin_ok: Option<bool>, c_ok: bool, what: String) -> R {
@@ -422,6 +423,16 @@ impl<'a> Interp<'a> {
                 (self.storm.SFileAddFile)(hval(v), cs.as_ptr(), cn.ptr(), flags)
             }
         };
+        if w && ok {
+            if let (Some(n), Some(Obj::A(a))) = (&ns, self.model.get_mut(&v)) {
+                // the special files are maintained by the library itself: never modelled
+                if !n.starts_with('(') {
+                    if let Ok(d) = std::fs::read(&src) {
+                        a.map.insert(crate::ops_a::fold_name(n), d);
+                    }
+                }
+            }
+        }
         self.judge_mod(api, v, hc, w, twin_ok, ok, format!("{ns:?}, {len} bytes, flags {flags:#x}, compression {compression:#x}"))
     }
 
@@ -442,6 +453,11 @@ impl<'a> Interp<'a> {
         }
         self.announce("SFileRemoveFile", Self::name_label(name), hc.label());
         let ok = unsafe { (self.storm.SFileRemoveFile)(hval(v), cn.ptr(), 0) };
+        if w && ok {
+            if let (Some(n), Some(Obj::A(a))) = (&ns, self.model.get_mut(&v)) {
+                a.map.remove(&crate::ops_a::fold_name(n));
+            }
+        }
         self.judge_mod("SFileRemoveFile", v, hc, w, twin_ok, ok, format!("{ns:?}"))
     }
 
@@ -463,6 +479,17 @@ impl<'a> Interp<'a> {
         }
         self.announce("SFileRenameFile", if nf.is_none() || nt.is_none() { "name=invalid" } else { "" }, hc.label());
         let ok = unsafe { (self.storm.SFileRenameFile)(hval(v), cf.ptr(), ct.ptr()) };
+        if w && ok {
+            if let (Some(f), Some(t), Some(Obj::A(a))) = (&nf, &nt, self.model.get_mut(&v)) {
+                let moved = a.map.remove(&crate::ops_a::fold_name(f));
+                a.map.remove(&crate::ops_a::fold_name(t));
+                if let Some(d) = moved {
+                    if !t.starts_with('(') {
+                        a.map.insert(crate::ops_a::fold_name(t), d);
+                    }
+                }
+            }
+        }
         self.judge_mod("SFileRenameFile", v, hc, w, twin_ok, ok, format!("{nf:?} -> {nt:?}"))
     }
 
@@ -485,7 +512,13 @@ impl<'a> Interp<'a> {
         let ok = unsafe {
             if compact { (self.storm.SFileCompactArchive)(hval(v), std::ptr::null(), false) } else { (self.storm.SFileFlushArchive)(hval(v)) }
         };
-        self.judge_mod(api, v, hc, w, twin_ok, ok, String::new())
+        let r = self.judge_mod(api, v, hc, w, twin_ok, ok, String::new());
+        if w && ok && twin_ok == Some(true) {
+            if let Some(Obj::A(a)) = self.model.get_mut(&v) {
+                a.dirty = false;
+            }
+        }
+        r
     }
 
     // ------------------------------------------------------------------ verification
